@@ -80,6 +80,11 @@ def check_vector(v):
     gs_ = bnp.Genome(dict(reversed(list(sizes.items()))), sort_names=True)
     cmp("get_mask[sort_names]", v["mask"], lambda: dense(gs_.get_intervals(table(es), stranded=True).get_mask(), True))
     cmp("get_pileup[sort_names]", v["pileup"], lambda: dense(gs_.get_intervals(table(es)).get_pileup()))
+    # a second genome object over the same contigs listed in the opposite order (made while the first is alive): every contig keeps its own data
+    if len(G) >= 2:
+        gr_ = bnp.Genome.from_dict(dict(reversed(list(sizes.items()))))
+        cmp("get_mask[same contigs, opposite order]", v["mask"], lambda: dense(gr_.get_intervals(table(es), stranded=True).get_mask(), True))
+        cmp("get_pileup[same contigs, opposite order]", v["pileup"], lambda: dense(gr_.get_intervals(table(es)).get_pileup()))
     cmp("extended_to_size[sort_names]", v["extend"][2], lambda: _rows(gs_.get_intervals(table(es), stranded=True).extended_to_size(3).get_data(), names), length=3)
     # a genome derived (with_ignored_added) from one that already leaves a contig out: the contigs and their sizes are those of this genome
     from bionumpy.genomic_data.genome_context import ignore_underscores
